@@ -2986,35 +2986,39 @@ public:
     base_domain_t base_dom(invariant.m_base_dom);
     interval_t lb_i = to_interval(lb_idx, base_dom);
     auto lb = lb_i.singleton();
-    if (!lb) {
-      return;
-    }
-
     interval_t ub_i = to_interval(ub_idx, base_dom);
     auto ub = ub_i.singleton();
-    if (!ub) {
+
+    if (lb && ub && !(*lb <= *ub)) {
+      // empty range: nothing is written
       return;
     }
 
-    if (!(*lb <= *ub)) {
-      return;
-    }
+    auto s = rename_with_meet_semantics(invariant);
+    m_base_dom = std::move(s.left_dom);
+    m_array_map = std::move(s.array_map);
+    m_cell_ghost_man = std::move(s.cell_ghost_man);
 
-    number_t num_elems = (*ub - *lb) / e_sz;
-    number_t e = *ub;
-    if (num_elems >
-        crab_domain_params_man::get().array_adaptive_max_array_size()) {
-      e = *lb +
-          ((number_t(
-                crab_domain_params_man::get().array_adaptive_max_array_size()) -
-            1) *
-           e_sz);
+    const array_state &as = lookup_array_state(a);
+    if (!lb || !ub || as.is_smashed()) {
+      // We do not know which cells are overwritten: the previous
+      // contents of the array are unknown.
+      forget_array(a);
+    } else {
+      // All the cells in the range are overwritten: their previous
+      // contents are unknown. The forward invariant holds before the
+      // whole range is written so we meet with it only once.
+      array_state next_as(as);
+      offset_map_t &om = next_as.get_offset_map();
+      std::vector<cell_t> cells;
+      linear_expression_t symb_lb(*lb);
+      linear_expression_t symb_ub(*ub + number_t(e_sz - 1));
+      om.get_overlap_cells_symbolic_offset(s.right_dom, symb_lb, symb_ub,
+                                           cells);
+      kill_cells(a, cells, om);
+      m_array_map.set(a, next_as);
     }
-
-    for (number_t i = *lb; i <= e;) {
-      backward_array_store(a, elem_size, i, val, false, invariant);
-      i = i + e_sz;
-    }
+    m_base_dom = m_base_dom & s.right_dom;
   }
 
   virtual void
